@@ -163,11 +163,28 @@ fn check(plan: &Plan, out: &RunOut) -> CheckOut {
         }
         _ => {
             if w.now >= deadline {
-                let stuck: Vec<String> = b.worker_tasks.iter().filter(|(t, _)| w.tasks[*t].state != dsim::TState::Done || matches!(w.tasks[*t].end, Some(dsim::TaskEnd::Killed))).map(|(_, n)| n.clone()).collect();
+                let stuck_ids: Vec<usize> = b.worker_tasks.iter().filter(|(t, _)| w.tasks[*t].state != dsim::TState::Done || matches!(w.tasks[*t].end, Some(dsim::TaskEnd::Killed))).map(|(t, _)| *t).collect();
+                let stuck: Vec<String> = stuck_ids.iter().map(|t| w.tasks[*t].name.clone()).collect();
+                // which failure is it? A stuck worker that, from the signal to the deadline, never
+                // once found its socket empty (no WouldBlock, no return to poll) is inside the
+                // drain loop of process_events; anything else is a different defect.
+                let drain_busy = !stuck_ids.is_empty()
+                    && stuck_ids.iter().all(|t| {
+                        // t0: when the worker last came back from poll (entered process_events'
+                        // event loop); it must have done so no later than 100 ms after the signal
+                        // and, from then to the deadline, have kept receiving without ever seeing
+                        // WouldBlock
+                        let evs: Vec<&dsim::Rec> = w.history.iter().filter(|r| r.task == Some(*t) && r.t <= deadline).collect();
+                        let t0 = evs.iter().rev().find(|r| matches!(r.ev, dsim::Ev::PollRet { .. })).map(|r| r.t).unwrap_or(0);
+                        let after: Vec<&&dsim::Rec> = evs.iter().filter(|r| r.t > t0).collect();
+                        let received = after.iter().filter(|r| matches!(r.ev, dsim::Ev::UdpRecv { .. })).count();
+                        let saw_empty = after.iter().any(|r| matches!(r.ev, dsim::Ev::UdpRecvEmpty { .. }));
+                        t0 <= t_sig + 100 * dsim::MS && received > 0 && !saw_empty
+                    });
                 co.violate(
                     "C19",
                     "exit_deadline",
-                    format!("C19|exit_deadline|load={}", load),
+                    if drain_busy { "C19|exit_deadline|receive_queue_never_empty".to_string() } else { format!("C19|exit_deadline|load={}", load) },
                     format!("{} delivered at {:.6}s ({} workers, client_stats {}, load {}): the process is still running {:.1} simulated s later; threads still alive: {:?}", if plan.p("sig") == 2 { "SIGINT" } else { "SIGTERM" }, t_sig as f64 / 1e9, wcls, stats, load, (w.now - t_sig) as f64 / 1e9, stuck),
                 );
             }
